@@ -925,8 +925,8 @@ fn write_code<'a, 'b: 'a>(writer: &mut impl ClassWrite, code: &'b Code, pool: &m
 
 						if low > high { bail!("`low` must be lower or equal to `high`"); }
 
-						let n = (high - low + 1) as usize;
-						if table.len() != n {
+						let n = high as i64 - low as i64 + 1; // computed in i64 as it can be 2^32
+						if table.len() as i64 != n {
 							bail!("`low` and `high` bounds don't span a rage of the size of the table: table has {}, high and low define {n}", table.len());
 						}
 
